@@ -14,7 +14,8 @@ package rfc8628
 //@ spec func dev_unchanged() bool = dev_live == old(dev_live) && dev_used == old(dev_used) && dev_req == old(dev_req) && dev_rid == old(dev_rid) && dev_client == old(dev_client)
 
 //@ interface DeviceAuthStorage.CreateDeviceAuthSession
-//@   modifies dev_live, dev_used, dev_req, dev_rid, dev_client, stored, faults
+//@   modifies dev_live, dev_used, dev_req, dev_rid, dev_client, stored, faults, tx_escaped
+//@   ensures tx_escaped == old(tx_escaped) + escapes(ctx, err)
 //@   ensures err == nil ==> dev_live == upd(upd(old(dev_live), deviceCodeSignature, true), userCodeSignature, true) && dev_req == upd(upd(old(dev_req), deviceCodeSignature, request), userCodeSignature, request) && dev_rid == upd(upd(old(dev_rid), deviceCodeSignature, request.GetID()), userCodeSignature, request.GetID()) && dev_client == upd(upd(old(dev_client), deviceCodeSignature, request.GetClient().GetID()), userCodeSignature, request.GetClient().GetID()) && stored == upd(old(stored), request, true) && faults == old(faults)
 //@   ensures err != nil && eis(err, fosite.ErrExistingUserCodeSignature) ==> dev_unchanged() && stored == old(stored) && faults == old(faults)
 //@   ensures err != nil && !eis(err, fosite.ErrExistingUserCodeSignature) ==> dev_unchanged() && stored == old(stored) && faults == old(faults) + 1
@@ -29,7 +30,8 @@ package rfc8628
 // After a successful invalidation the code is no longer live; whether the store remembers it as used
 // (answers ErrInvalidatedDeviceCode) or forgets it (answers not-found) is the store's choice.
 //@ interface DeviceAuthStorage.InvalidateDeviceCodeSession
-//@   modifies dev_live, dev_used, faults
+//@   modifies dev_live, dev_used, faults, tx_escaped
+//@   ensures tx_escaped == old(tx_escaped) + escapes(ctx, err)
 //@   ensures err == nil ==> dev_live == upd(old(dev_live), signature, false) && (dev_used == upd(old(dev_used), signature, true) || dev_used == old(dev_used)) && faults == old(faults)
 //@   ensures err != nil ==> dev_live == old(dev_live) && dev_used == old(dev_used) && faults == old(faults) + 1
 
@@ -92,7 +94,7 @@ package rfc8628
 // active refresh token carrying the given request id.
 //@ func (*DeviceCodeTokenEndpointHandler).revokeTokens
 //@   requires c != nil
-//@   modifies acc_exists, ref_active, faults
+//@   modifies acc_exists, ref_active, faults, tx_escaped
 //@   ensures [C16.replay-revokes] err != nil && ekind(err) == "invalid_grant"
 //@   ensures [C16.replay-revokes] faults == old(faults) ==> (forall s string :: acc_exists[s] ==> acc_rid[s] != reqId) && (forall s string :: ref_exists[s] && ref_rid[s] == reqId ==> !ref_active[s])
 //@   ensures [C16.replay-revokes] (forall s string :: acc_exists[s] ==> old(acc_exists[s])) && (forall s string :: ref_active[s] ==> old(ref_active[s]))
@@ -102,7 +104,7 @@ package rfc8628
 //@   let code = formget(old(requester.GetRequestForm()), "device_code")
 //@   let sig = devsig(c.DeviceCodeStrategy, code)
 //@   requires c != nil && requester != nil && !stored[requester] && requester.GetClient() != nil
-//@   modifies acc_exists, ref_active, faults, validated_n, rl_blocked
+//@   modifies acc_exists, ref_active, faults, validated_n, rl_blocked, tx_escaped
 //@   ensures [C16.handle-issues-nothing] (forall s string :: acc_exists[s] ==> old(acc_exists[s])) && (forall s string :: ref_active[s] ==> old(ref_active[s])) && dev_live == old(dev_live) && dev_used == old(dev_used)
 //@   ensures [C16.fault-refuses] faults != old(faults) ==> err != nil
 //@   ensures [C06.lookup-then-validate] err == nil ==> validated_n[code] > old(validated_n[code])
@@ -154,7 +156,8 @@ package rfc8628
 //@   let sig  = devsig(c.DeviceCodeStrategy, code)
 //@   let txl  = implements(c.CoreStorage, storage.Transactional)
 //@   requires c != nil && requester != nil && responder != nil && !stored[requester]
-//@   modifies dev_live, dev_used, code_active, acc_exists, acc_rid, acc_client, acc_req, ref_exists, ref_active, ref_rid, ref_client, ref_acc, ref_req, stored, faults, tx_open, tx_begun, tx_committed, tx_rolledback, tx_commit_calls, tx_rollback_calls, snap_code_active, snap_acc_exists, snap_ref_exists, snap_ref_active, snap_dev_live, validated_n
+//@   modifies dev_live, dev_used, code_active, acc_exists, acc_rid, acc_client, acc_req, ref_exists, ref_active, ref_rid, ref_client, ref_acc, ref_req, stored, faults, tx_open, tx_begun, tx_committed, tx_rolledback, tx_commit_calls, tx_rollback_calls, snap_code_active, snap_acc_exists, snap_ref_exists, snap_ref_active, snap_dev_live, validated_n, tx_escaped, tx_ctx
+//@   ensures [C18.writes-inside-tx] old(tx_open) == 0 ==> tx_escaped == old(tx_escaped)
 //@   ensures [C16.once] err == nil ==> old(dev_live[sig]) && !dev_live[sig]
 //@   ensures [C16.tokens-only-if-accepted] err == nil ==> old(dev_req[sig]) != nil && old(dev_req[sig]).GetUserCodeState() != fosite.UserCodeUnused && old(dev_req[sig]).GetUserCodeState() != fosite.UserCodeRejected
 //@   ensures [C06.lookup-then-validate] err == nil ==> validated_n[code] > old(validated_n[code])
@@ -181,7 +184,7 @@ package rfc8628
 
 //@ func (*DeviceAuthHandler).handleDeviceAuthSession
 //@   requires d != nil && dar != nil
-//@   modifies dev_live, dev_used, dev_req, dev_rid, dev_client, stored, faults
+//@   modifies dev_live, dev_used, dev_req, dev_rid, dev_client, stored, faults, tx_escaped
 //@   assert @call(CreateDeviceAuthSession)#1 [C16.codes-stored-as-signatures] deviceCodeSignature == devsig(d.Strategy, deviceCode) && userCodeSignature == usersig(d.Strategy, userCode)
 //@   ensures [C16.device-auth-stores] result2 == nil ==> dev_live[devsig(d.Strategy, result0)] && dev_live[usersig(d.Strategy, result1)]
 //@   ensures [C16.fault-refuses] faults != old(faults) ==> result2 != nil
